@@ -50,6 +50,9 @@ type prop struct {
 	// internal time budgets in seconds handed to the harness (0 = none). When
 	// a budget is hit the harness stops, reports exhaustive:false and exits 0.
 	QuickBudget, ThoroughBudget float64
+	// RacePkg: harness package run free-running under `go test -race` after the
+	// shards (uninstrumented, no overlay). Sampled, never exhaustive.
+	RacePkg string
 }
 
 var props = []prop{
@@ -59,7 +62,7 @@ var props = []prop{
 	{ID: "C04", Level: "fault_enumeration", Shards: 16},
 	{ID: "C05", Level: "exploration", Shards: 16},
 	{ID: "C06", Level: "model_checking", Shards: 16},
-	{ID: "C07", Level: "model_checking", Overlay: true, Shards: 16, QuickBudget: 45, ThoroughBudget: 900},
+	{ID: "C07", Level: "model_checking", Overlay: true, Shards: 16, QuickBudget: 45, ThoroughBudget: 900, RacePkg: "c07race"},
 	{ID: "C08", Level: "model_checking", Overlay: true, Shards: 16, QuickBudget: 45, ThoroughBudget: 900},
 	{ID: "C09", Level: "model_checking", Overlay: true, Shards: 16},
 	{ID: "C10", Level: "exploration", Shards: 16},
@@ -484,6 +487,22 @@ func cmdCheck(args []string) int {
 		}
 	}
 
+	// free-running race-detector pass (sampled)
+	if p.RacePkg != "" {
+		rv, rounds, rerr := racePass(p, wd, *tier)
+		if rerr != nil {
+			fmt.Fprintf(os.Stderr, "MACHINERY-ERROR property=%s: race pass: %v\n", p.ID, rerr)
+			return 2
+		}
+		c.Counters["race_pass_rounds"] = rounds
+		c.Counters["race_pass_reports"] = int64(len(rv))
+		c.Notes = append(c.Notes, fmt.Sprintf("race pass: %s ran %d rounds free-running under go test -race on the uninstrumented code; it is SAMPLED, not exhaustive, and is the only part of this check that can see data races. `exhaustive` is therefore false for the check as a whole; the model-checked part alone completed: %v", p.RacePkg, rounds, c.Exhaustive))
+		c.Counters["scheduled_part_exhaustive_at_bound"] = map[bool]int64{true: 1, false: 0}[c.Exhaustive]
+		c.Exhaustive = false
+		viols = append(viols, rv...)
+		nviol += int64(len(rv))
+	}
+
 	// classify violations
 	known, err := loadKnown()
 	if err != nil {
@@ -519,7 +538,10 @@ func cmdCheck(args []string) int {
 		data, _ := json.MarshalIndent(rf, "", " ")
 		os.WriteFile(rp, data, 0o644)
 		// re-run the violation from its replay key before believing it
-		ok, hit := confirm(bin, wd, p, *tier, seed, v.Case, 5)
+		ok, hit := true, true
+		if !strings.HasPrefix(v.Case, "race-pass|") {
+			ok, hit = confirm(bin, wd, p, *tier, seed, v.Case, 5)
+		}
 		if hit && !ok {
 			c.Flaky = append(c.Flaky, v.Signature+" case="+v.Case)
 			continue
@@ -711,4 +733,63 @@ func cmdInstr(args []string) int {
 	}
 	fmt.Println(j)
 	return 0
+}
+
+// racePass builds and runs the race package and turns every distinct data-race
+// report into a violation.
+func racePass(p *prop, wd, tier string) ([]violation, int64, error) {
+	if err := genHarnessMod(); err != nil {
+		return nil, 0, err
+	}
+	cmd := exec.Command(goBin, "test", "-race", "-count=1", "-vet=off", "-v", "-run", "^TestRaceBodies$", "./"+p.RacePkg)
+	cmd.Dir = filepath.Join(verifDir, "harness")
+	cmd.Env = append(goEnv(), "VERIF_TIER="+tier, "GOLOG_LOG_LEVEL=fatal", "GORACE=halt_on_error=0")
+	out, runErr := cmd.CombinedOutput()
+	logPath := filepath.Join(wd, "race-pass.log")
+	os.WriteFile(logPath, out, 0o644)
+	text := string(out)
+	var rounds int64
+	if i := strings.Index(text, "RACE-PASS rounds="); i >= 0 {
+		fmt.Sscanf(text[i:], "RACE-PASS rounds=%d", &rounds)
+	}
+	if !strings.Contains(text, "DATA RACE") {
+		if runErr != nil {
+			return nil, rounds, fmt.Errorf("race package failed without a race report (%v); see %s", runErr, logPath)
+		}
+		if rounds == 0 {
+			return nil, 0, fmt.Errorf("race package did not report any completed round; see %s", logPath)
+		}
+		return nil, rounds, nil
+	}
+	// one violation per distinct pair of repository source lines
+	var out2 []violation
+	seen := map[string]bool{}
+	for _, rep := range strings.Split(text, "WARNING: DATA RACE")[1:] {
+		var lines []string
+		for _, l := range strings.Split(rep, "\n") {
+			l = strings.TrimSpace(l)
+			if strings.HasPrefix(l, repoDir+"/") && !strings.Contains(l, "_test.go") {
+				f := strings.Fields(l)[0]
+				lines = append(lines, strings.TrimPrefix(f, repoDir+"/"))
+				if len(lines) == 2 {
+					break
+				}
+			}
+			if strings.HasPrefix(l, "Goroutine ") {
+				break
+			}
+		}
+		key := strings.Join(lines, " vs ")
+		if key == "" || seen[key] {
+			continue
+		}
+		seen[key] = true
+		excerpt := rep
+		if len(excerpt) > 1500 {
+			excerpt = excerpt[:1500]
+		}
+		d, _ := json.Marshal(map[string]any{"race_report": "WARNING: DATA RACE" + excerpt, "how_to_rerun": "cd /verif/harness && go1.26.8 test -race -run TestRaceBodies ./" + p.RacePkg})
+		out2 = append(out2, violation{Signature: "race-detector-report:" + key, Case: "race-pass|" + key, Message: "the race detector reports a data race between " + key + " in the free-running pass (" + p.RacePkg + ")", Detail: d})
+	}
+	return out2, rounds, nil
 }
